@@ -1,33 +1,33 @@
 ------------------------------ MODULE C15Trace ------------------------------
 (***************************************************************************)
 (* Leg C for C15.  One trace line per executed layout:                     *)
-(*   blocks[k]  [id, res, min, max] of the blocks in the real              *)
-(*              bucketBlockSet (milliseconds)                              *)
+(*   blocks[k]  <<id, res, min, max>> of the blocks in the real            *)
+(*              bucketBlockSet (milliseconds), as given to add()           *)
 (*   adderr     "" or the error add() returned                             *)
-(*   qs[j]      [mint, maxt, maxres, ok, sel]: one getFor call on that     *)
+(*   calls[j]   <<mint, maxt, maxres, ok, sel>>: one getFor call on that   *)
 (*              set; sel = ids of the returned blocks in returned order    *)
-(*              (-1: a block that was never added); ok = FALSE: panic      *)
+(*              (-1: a block that was never added); ok = 0: it panicked    *)
 (* Every call is judged with the property-level operator Judge of          *)
 (* BlockSet (the four clauses of the statement, on the real timestamps).   *)
 (***************************************************************************)
 EXTENDS TraceLib, BlockSet
 
-BlocksOf(e) == { e.blocks[k] : k \in DOMAIN e.blocks }
+BlocksOf(e) == { [id |-> e.blocks[k][1], res |-> e.blocks[k][2], min |-> e.blocks[k][3], max |-> e.blocks[k][4]] : k \in DOMAIN e.blocks }
+QueryOf(c) == [mint |-> c[1], maxt |-> c[2], maxres |-> c[3]]
 
 JudgeCall(blocks, c) ==
-    IF ~c.ok THEN {"returns-a-selection"}          \* the statement presupposes that a selection is returned
-    ELSE Judge(blocks, [mint |-> c.mint, maxt |-> c.maxt, maxres |-> c.maxres], c.sel)
+    IF c[4] = 0 THEN {"returns-a-selection"}       \* the statement presupposes that a selection is returned
+    ELSE Judge(blocks, QueryOf(c), c[5])
 
 JudgeLine(e) ==
+    LET blocks == BlocksOf(e) IN
     (IF e.adderr = "" THEN {} ELSE {"layout-accepted-by-add"})
-    \cup UNION { JudgeCall(BlocksOf(e), e.qs[j]) : j \in DOMAIN e.qs }
+    \cup UNION { JudgeCall(blocks, e.calls[j]) : j \in DOMAIN e.calls }
 
 (* Model conformance (never a verdict): the algorithm-level GetFor predicts the same multiset    *)
 (* of blocks (order among blocks with identical ranges is unspecified in the code).              *)
-DriftCall(blocks, c) ==
-    c.ok /\ c.maxres >= 0 /\
-    BagOf(c.sel) # BagOf(GetFor(blocks, [mint |-> c.mint, maxt |-> c.maxt, maxres |-> c.maxres]))
-Drift(e) == \E j \in DOMAIN e.qs : DriftCall(BlocksOf(e), e.qs[j])
+DriftCall(blocks, c) == c[4] = 1 /\ c[3] >= 0 /\ BagOf(c[5]) # BagOf(GetFor(blocks, QueryOf(c)))
+Drift(e) == LET blocks == BlocksOf(e) IN \E j \in DOMAIN e.calls : DriftCall(blocks, e.calls[j])
 
 VARIABLE l
 TraceInit == l = 1
